@@ -57,6 +57,8 @@ def dispatch (f : List String) : String :=
   | ["m.repl", s] => replOp s
   | ["m.clirun", l, pa, e, src, i] => cliRunOp l pa e src i
   | ["m.clicheck", pa, fn, e, src] => cliCheckOp pa fn e src
+  | ["m.clirunbytes", l, pa, e, src, i] => cliRunBytesOp l pa e src i
+  | ["m.declines", h] => decLinesOp h
   | ["m.debug", pa, fn, src, sc] => debugOp pa fn src sc
   | ["m.opt", l, p] => optOp l p
   | ["m.compile", l, p] => compileOp l p
